@@ -319,6 +319,9 @@ fn run(nodes: usize, max_ops: usize, alpha: &[Ev], hist: &[u16], ev: u16) -> Opt
                             });
                             outs.len() > 1
                         };
+                        // ... but only if every PAIR of them still merges to the same value both ways: a merge that is not
+                        // even commutative is a different defect than the listed regrouping one and keeps its own name
+                        let not_commutative = (0..vals.len()).any(|i| (i + 1..vals.len()).any(|j| project(&vals[i].merge(vals[j])) != project(&vals[j].merge(vals[i]))));
                         let kinds = {
                             let mut ks: Vec<&str> = vals.iter().map(|v| if v.crdt.type_name() == "lww" || v.crdt.type_name() == "string" { "Lww" } else { v.crdt.type_name() }).collect();
                             ks.sort();
@@ -326,7 +329,7 @@ fn run(nodes: usize, max_ops: usize, alpha: &[Ev], hist: &[u16], ev: u16) -> Opt
                             ks.join("+")
                         };
                         return Some(Err((
-                            if multi_del(&evs) { "diverged after-multi-key-DEL".to_string() } else if order_dependent { format!("diverged merge-order-dependent kinds={kinds}") } else { format!("diverged ops={}", op_names(&evs)) },
+                            if multi_del(&evs) { "diverged after-multi-key-DEL".to_string() } else if not_commutative { format!("diverged merge-not-commutative kinds={kinds}") } else if order_dependent { format!("diverged merge-order-dependent kinds={kinds}") } else { format!("diverged ops={}", op_names(&evs)) },
                             format!("[{trace}]: every delta has reached every node, yet node0 reads {:?} and node{n} reads {:?} for key {k}", all_reads[0].get(&k), all_reads[n].get(&k)),
                         )));
                     }
